@@ -30,6 +30,7 @@ from tools.gen import loop as gen_loop
 from tools.gen import fds as gen_fds
 from tools.gen import fdpaths as gen_fdpaths
 from tools.gen import rootpaths as gen_rootpaths
+from tools.gen import ctrpaths as gen_ctrpaths
 from tools.gen.csrc import ExtractError
 
 sys.path.insert(0, os.path.join(VERIF, "harness", "C20"))
@@ -56,7 +57,10 @@ THEOREMS = ["JanetModel.Props.C20." + t for t in (
     # session 4: every control-flow path of 10 descriptor-creating functions, extracted from the source, replayed in Lean
     "fd_paths_ok", "fd_paths_sites_in_table", "fd_paths_cover_sites", "fd_run_count", "fd_paths_balanced",
     # session 4: every control-flow path of the functions that pin / release objects for an event-loop operation
-    "root_paths_ok", "root_paths_functions", "root_ops_match_model")]
+    "root_paths_ok", "root_paths_functions", "root_ops_match_model",
+    # session 4b: the conditions under which each listener_count site is executed, as truth tables over the branches of every path
+    "counter_vocab_match", "counter_paths_ok", "counter_paths_cover_sites", "counter_ops_match_model", "counter_stale_task_not_counted",
+    "counter_cfg_match")]
 
 ENV = dict(os.environ, ASAN_OPTIONS="detect_leaks=0:abort_on_error=0", UBSAN_OPTIONS="print_stacktrace=1")
 SCRATCH = "/var/tmp/janet-verif-c20"
@@ -331,9 +335,11 @@ def run(ctx):
         path_facts = gen_fdpaths.extract(ctx.build.tree)
         ctx.gen("RootPaths.lean", gen_rootpaths.render(ctx.build.tree))
         root_facts = gen_rootpaths.extract(ctx.build.tree)
+        ctx.gen("CounterPaths.lean", gen_ctrpaths.render(ctx.build.tree))
+        ctr_facts = gen_ctrpaths.extract(ctx.build.tree)
     except ExtractError as e:
-        gen_facts = fd_facts = path_facts = root_facts = None
-        broken.append("translator tools/gen/loop.py / fds.py / fdpaths.py / rootpaths.py: %s" % e)
+        gen_facts = fd_facts = path_facts = root_facts = ctr_facts = None
+        broken.append("translator tools/gen/loop.py / fds.py / fdpaths.py / rootpaths.py / ctrpaths.py: %s" % e)
         ctx.broken.append(broken[-1])
     except BuildError as e:
         ctx.violation("build-failed", {"kind": "build", "error": str(e)[-3000:]}, found=False, what="tree does not build")
@@ -343,6 +349,10 @@ def run(ctx):
     if broken and path_facts:
         for w in gen_fdpaths.diagnose(path_facts["paths"])[:6]:
             broken.append("descriptor path (theorem fd_paths_ok): " + w)
+            ctx.say(broken[-1])
+    if broken and ctr_facts:
+        for w in gen_ctrpaths.diagnose(ctr_facts)[:6]:
+            broken.append("listener_count path (theorem counter_paths_ok): " + w)
             ctx.say(broken[-1])
     if broken and fd_facts:
         # name the descriptor / child sites that differ from the table the model was last proved against (committed Gen/Fds.lean)
@@ -499,6 +509,7 @@ def run(ctx):
         "generated": {"tchan_unroot": gen_facts["tchan_unroot"], "close_notifies_both": gen_facts["close_notifies_both"],
                       "fd_sites": dict((k, sum(1 for x in fd_facts["fd"] if x[2] == k)) for k in ("create", "close", "wrap", "raise")) if fd_facts else None,
                       "root_paths": len(root_facts["paths"]) if root_facts else None,
+                      "counter_paths": len(ctr_facts["paths"]) if ctr_facts else None,
                       "fd_paths": len(path_facts["paths"]) if path_facts else None, "fd_path_functions": path_facts["functions"] if path_facts else None,
                       "selfpipe": [gen_facts["selfpipe_batch"], gen_facts["selfpipe_recur"], gen_facts["selfpipe_edge"]],
                       "child_sites": len(fd_facts["child"]) if fd_facts else None, "thread_sites": len(fd_facts["thread"]) if fd_facts else None,
